@@ -545,7 +545,15 @@ def lever_rule_HS(ctx, rule, vle):
                 return Form.atom('%s@site%d.%d' % (node.func.attr, node.lineno, node.col_offset))
             return None
         ps, _ = run_paths(f.node, follow_except=False, call_hook=site_hook)
-        two = [p for p in ps if not p.raised and all(t[1] is False for t in p.conds if not isinstance(t[0], str))]
+        # the two-phase path(s): both saturated values were evaluated and no single-phase temperature / pressure solve was taken
+        def _two_phase(p_):
+            if p_.raised:
+                return False
+            n_sat = sum(1 for e in p_.events if e.kind == 'assign' and isinstance(e.value, Form) and len(e.value.t) == 1 and len(list(e.value.t)[0]) == 1
+                        and re.match(r'^x[HS]@site', list(e.value.t)[0][0][0]))
+            solved = any(e.kind == 'call' and re.search(r'\.xsolve_[TP]_at_', e.target) for e in p_.events)
+            return n_sat >= 2 and not solved
+        two = [p for p in ps if _two_phase(p)]
         if not two:
             rule.fail(cons, 'no-two-phase-path', 'no path on which both saturation tests fail', f, f.node)
             continue
